@@ -200,12 +200,25 @@ func (c *connectToFlag) Set(s string) error {
 		*c.addrMap = make(map[string][]string)
 	}
 
-	parts := strings.Split(s, ":")
-	if len(parts) != 4 {
+	// The source address ends at the second colon; an IPv6 address holds
+	// colons of its own, inside brackets.
+	end, colons, bracket := -1, 0, false
+	for i := 0; i < len(s) && end < 0; i++ {
+		switch {
+		case s[i] == '[':
+			bracket = true
+		case s[i] == ']':
+			bracket = false
+		case s[i] == ':' && !bracket:
+			if colons++; colons == 2 {
+				end = i
+			}
+		}
+	}
+	if end < 0 {
 		return fmt.Errorf("invalid -connect-to %q, expected format: %s", s, connectToFormat)
 	}
-	srcAddr := parts[0] + ":" + parts[1]
-	dstAddr := parts[2] + ":" + parts[3]
+	srcAddr, dstAddr := s[:end], s[end+1:]
 
 	// Parse source address
 	if _, _, err := net.SplitHostPort(srcAddr); err != nil {
